@@ -186,8 +186,12 @@ class MonitoredList(MonitoredContainer, list):
         return list
 
     def extend(self, items):
-        for item in items:
+        for item in list(items):
             self._add_item(item)
+
+    def __iadd__(self, items):
+        self.extend(items)
+        return self
 
     def append(self, item):
         self._add_item(item)
@@ -231,6 +235,12 @@ class MonitoredSet(MonitoredContainer, set):
     def update(self, values):
         for value in values:
             self._add_item(value)
+
+    def __ior__(self, values):
+        if not isinstance(values, (set, frozenset)):
+            return NotImplemented
+        self.update(values)
+        return self
 
     def _add_item(
         self, value, inferred: bool = False, add_relation_to_the_graph: bool = True
